@@ -35,6 +35,7 @@ type point struct {
 	Type string `json:"type"`
 	Cls  string `json:"cls"`
 	Pos  string `json:"pos"`
+	Idc  string `json:"idc,omitempty"`
 }
 
 type Violation struct {
@@ -344,8 +345,8 @@ func main() {
 	evals, distinct := 0, 0
 	var samples []interface{}
 	report := func(pt point, class, why string, exp, obs interface{}) {
-		viol = append(viol, Violation{Property: "C14", Kind: kindOf(pt.Type), Class: class, Why: why + " (" + pt.Type + ", value class " + pt.Cls + ", " + pt.Pos + ")",
-			Steps: []point{pt}, Expected: exp, Observed: obs, Hash: "codec-" + pt.Type + "-" + pt.Cls + "-" + pt.Pos, Tool: "codeccheck"})
+		viol = append(viol, Violation{Property: "C14", Kind: kindOf(pt.Type), Class: class, Why: why + " (" + pt.Type + ", value class " + pt.Cls + ", " + pt.Pos + ", ids " + pt.Idc + ")",
+			Steps: []point{pt}, Expected: exp, Observed: obs, Hash: "codec-" + pt.Type + "-" + pt.Cls + "-" + pt.Pos + "-" + pt.Idc, Tool: "codeccheck"})
 	}
 	nth := 0
 	for sc.Scan() {
@@ -367,6 +368,22 @@ func main() {
 		kind := kindOf(pt.Type)
 		a := replica.NewInst(kind, "k")
 		prepare(a)
+		if pt.Idc == "era" || pt.Idc == "big" {
+			// the identifier the next operations carry: a later era, or counters beyond 32 bits
+			if x, ok := a.DT.(interface {
+				GetOpID() *model.OperationID
+				SetOpID(*model.OperationID)
+			}); ok {
+				id := x.GetOpID().Clone()
+				if pt.Idc == "era" {
+					id.Era = 3
+				} else {
+					id.Lamport += 1 << 40
+					id.Seq += 1 << 33
+				}
+				x.SetOpID(id)
+			}
+		}
 		pre := a.DT.CreatePushPullPack().Operations
 		npre := len(pre)
 		n, err := emit(a, pt)
@@ -381,7 +398,13 @@ func main() {
 				report(pt, "error", "CreateSnapshotOperation failed: "+oerr.Error(), nil, nil)
 				continue
 			}
-			sop.SetID(&model.OperationID{Lamport: 99, CUID: a.DT.GetCUID(), Seq: 99})
+			sid := &model.OperationID{Lamport: 99, CUID: a.DT.GetCUID(), Seq: 99}
+			if pt.Idc == "era" {
+				sid.Era = 3
+			} else if pt.Idc == "big" {
+				sid.Lamport, sid.Seq = 1<<40+99, 1<<33+99
+			}
+			sop.SetID(sid)
 			emitted = []*model.Operation{sop.ToModelOperation()}
 		} else {
 			all := a.DT.CreatePushPullPack().Operations
